@@ -21,11 +21,44 @@
                           (`defsBound` of S4); weight(S5) ≤ weight(S4) + nodes(S4)·(1 + 2·B), i.e.
                           quadratic (the substitutions and closure environments that are added are
                           bounded by the contexts).
+    * C19_codegen_generic FULL for every backend record `B` with lawful temporaries (`BackendLaw`) whose
+                          primitives emit at most `c` codes, `store`/`load` of k fields at most c·(k+1)
+                          (`GenCost B c`): |compile B p| ≤ (5 + 5c)·(1 + M)·nodes(p), M = longest
+                          context of the linearized program `p` (`defsCap`).  Hypothesis (decidable,
+                          `substOkProg`): the new names of every explicit substitution are pairwise
+                          distinct — without it `spanning_tree` unfolds a DAG of moves exponentially
+                          (Scc/Backend/SizePM.lean); with it the parallel moves of a substitution are
+                          at most 1 + 2c·|new| + 2c·|old| instructions (`C19_parallel_moves`).
+    * C19_codegen_mock / C19_codegen_x86 / C19_routine_x86: the instances c = 1 (mock: ≤ 10·(1+M)·nodes)
+                          and c = 96 (x86-64: ≤ 485·(1+M)·nodes instructions; the routine wrapper adds
+                          at most 44 lines).
+    * C19_pipeline_stages FULL, unconditional: for every accepted program (`stages p' = .ok st`) with source
+                          size N (`funSrcSize`: definitions AND type declarations — a critical pair at a
+                          type with d constructors is eta-expanded into d clauses, so the declarations
+                          must count): |S2| ≤ P2 N = 3N(2N+4), |S3| ≤ P3 N = 4·P2 N,
+                          nodes S4 ≤ P4 N = (N+2)·P3 N, every list of S4 ≤ PW N = P3 N + N + 1,
+                          nodes S5 ≤ P5 N = 2·P4 N, every context of S5 ≤ PB N = 2(PW + P4(PW+1)) + PW + 1.
+    * C19_pipeline_size   the x86-64 routine of `compileAllX86` has at most
+                          PX N = 485·(1 + PB N)·P5 N + 44 instructions (= lines of the text), an explicit
+                          polynomial of degree 8 in N (2 from fun2core, 1 from the clauses of shrinking,
+                          the rest from the crude bound "contexts ≤ binders on a path ≤ nodes·width").
+                          Hypothesis: `C19_wf4 p'` (decidable): S4 passes `wfNonLinearCheck`, the
+                          precondition of the linearizer that every run checks (`wfNonLinear4` of
+                          C12_linkChecks) — it gives, by `linearizeProg_LinTyped`, the pairwise distinct new
+                          names that the bound on the parallel moves needs.
+    * C19_backhalf_size   the same from S3 on with the program's own parameters (|S3|, `shrinkFactor`,
+                          `progWidth`) instead of polynomials in N — much sharper.
+  What remains: nothing of the statement as given is left as a `def : Prop`; the bounds are crude in two
+  places (see C19_pipeline_size).  No pass duplicates a continuation: no defect found.
 -/
 import Scc.Props.C19
 import Scc.Props.C19Shrink
 import Scc.Core.SizeFocus
 import Scc.AxCut.SizeLin
+import Scc.Backend.SizeMock
+import Scc.Backend.SizeX86
+import Scc.Pipeline.SizeCompose
+import Scc.Props.C12
 
 namespace Scc.Props
 open Scc Scc.Fun2Core
@@ -72,6 +105,109 @@ theorem C19_linearize_stmt {n : Nat} {s : AxCut.Stmt} {Γ : AxCut.Ctx} {m : Nat}
     ∀ K, 1 + 2 * AxCut.SizeLin.bd Γ.length s ≤ K → AxCut.SizeLin.weight s' ≤ AxCut.SizeLin.weight s + s.size * K :=
   AxCut.SizeLin.linearize_size h
 
+/-! ## 4. code generation -/
+
+open Scc.Backend.SizeGen Scc.Backend.SizeConns Scc.Backend.SizePM in
+/-- FULL, generic in the backend -/
+theorem C19_codegen_generic {Code T : Type} {B : Backend.Backend Code T} {c : Nat}
+    (L : BackendLaw B) (C : GenCost B c) (hooks : Bool) (ren : Nat → String) (p : AxCut.Prog) (M : Nat)
+    (hM : AxCut.SizeLin.defsCap p.defs ≤ M) (hok : substOkProg p = true)
+    (k : Nat) (r : List Code × Nat) (k' : Nat)
+    (h : (Backend.compileR B hooks ren p).run k = .ok (r, k')) :
+    r.1.length ≤ (5 + 5 * c) * (1 + M) * AxCut.SizeLin.defsNodes p.defs :=
+  compile_length L C hooks ren p M hM hok k r k' h
+
+open Scc.Backend.SizeGen Scc.Backend.SizeConns Scc.Backend.SizePM in
+/-- the parallel moves of one substitution `pairs` in context `Γ`, any lawful backend -/
+theorem C19_parallel_moves {Code T : Type} {B : Backend.Backend Code T} {c : Nat}
+    (L : BackendLaw B) (hc : MoveCost B c) (pairs : List (AxCut.Binding × AxCut.Ident))
+    (Γ newΓ : AxCut.Ctx) (hnew : (pairs.map (·.1.var.id)).Nodup) (k : Nat) (code : List Code) (k' : Nat)
+    (h : (Backend.codeExchange B (Backend.transpose pairs Γ) Γ newΓ).run k = .ok (code, k')) :
+    code.length ≤ 1 + 2 * c * pairs.length + 2 * c * Γ.length :=
+  codeExchange_length L hc pairs Γ newΓ hnew k code k' h
+
+def C19_codegen_x86_statement : Prop :=
+  ∀ (hooks : Bool) (p : AxCut.Prog) (M c : Nat) (body : List X86.Code) (nargs : Nat),
+    AxCut.SizeLin.defsCap p.defs ≤ M → Backend.SizeGen.substOkProg p = true →
+    X86.compileX86 p hooks c = .ok (body, nargs) →
+    body.length ≤ 485 * (1 + M) * AxCut.SizeLin.defsNodes p.defs
+
+/-- FULL for the x86-64 backend -/
+theorem C19_codegen_x86 : C19_codegen_x86_statement :=
+  fun hooks p M c body nargs hM hok h => Backend.SizeX86.x86_compile_length hooks p M hM hok c body nargs h
+
+/-- the routine (what `print_x86_64` prints, one instruction per line) -/
+theorem C19_routine_x86 (body : List X86.Code) (nargs : Nat) (routine : List X86.Code)
+    (h : X86.intoRoutine body nargs = .ok routine) : routine.length ≤ body.length + 44 :=
+  Backend.SizeX86.intoRoutine_length body nargs routine h
+
+/-- FULL for the mock backend of the harness -/
+theorem C19_codegen_mock (hooks : Bool) (p : AxCut.Prog) (M c : Nat) (ops : List Backend.MockOp)
+    (hM : AxCut.SizeLin.defsCap p.defs ≤ M) (hok : Backend.SizeGen.substOkProg p = true)
+    (h : Backend.compileMockSym p hooks c = .ok ops) :
+    ops.length ≤ 10 * (1 + M) * AxCut.SizeLin.defsNodes p.defs :=
+  Backend.SizeMock.mock_compile_length hooks p M hM hok c ops h
+
+/-! ## 5. the whole pipeline -/
+
+open Scc.Pipeline Scc.Pipeline.SizeCompose in
+def C19_pipeline_stages_statement : Prop :=
+  ∀ (p' : Fun.CheckedProgram) (st : Stages), stages p' = .ok st →
+    progSize st.s2 ≤ P2 (funSrcSize p') ∧
+    Core.SizeFocus.fsProgSize st.s3 ≤ P3 (funSrcSize p') ∧
+    AxCut.SizeLin.defsNodes st.s4.defs ≤ P4 (funSrcSize p') ∧
+    Core2AxCut.SizeWidth.OKdefs (PW (funSrcSize p')) st.s4.defs ∧
+    AxCut.SizeLin.defsNodes st.s5.defs ≤ P5 (funSrcSize p') ∧
+    AxCut.SizeLin.defsCap st.s5.defs ≤ PB (funSrcSize p')
+
+/-- FULL, unconditional: every intermediate program of an accepted program is polynomial in the source -/
+theorem C19_pipeline_stages : C19_pipeline_stages_statement := fun _ _ h =>
+  let r := Pipeline.SizeCompose.stages_sizes h
+  ⟨r.1, r.2.1, r.2.2.1, r.2.2.2.1, r.2.2.2.2.2.1, r.2.2.2.2.2.2⟩
+
+/-- the (decidable) precondition of the linearizer on S4, checked on every program of a run -/
+def C19_wf4 (p' : Fun.CheckedProgram) : Bool :=
+  match Pipeline.stages p' with
+  | .ok st => AxCut.wfNonLinearCheck st.s4
+  | .error _ => false
+
+open Scc.Pipeline Scc.Pipeline.SizeCompose in
+def C19_pipeline_statement : Prop :=
+  ∀ (hooks : Bool) (c : Nat) (p' : Fun.CheckedProgram) (nargs : Nat) (text : String),
+    C19_wf4 p' = true → compileAllX86 hooks c p' = .ok (nargs, text) →
+    ∃ routine, text = X86.printProg routine ∧ routine.length ≤ PX (funSrcSize p')
+
+/-- C19 for the whole compiler down to the x86-64 text -/
+theorem C19_pipeline_size : C19_pipeline_statement := by
+  intro hooks c p' nargs text hwf h
+  refine Pipeline.SizeCompose.pipeline_x86 h ?_
+  intro st hst
+  simpa [C19_wf4, hst] using hwf
+
+/-- the hypothesis is part of the per-program predicate `C12_linkChecks` (= `C01_linkChecks`) that the
+    checks C01/C12 evaluate on every accepted program of a run -/
+theorem C19_wf4_of_linkChecks {p' : Fun.CheckedProgram} (h : C12_linkChecks p' = true) :
+    C19_wf4 p' = true := by
+  unfold C12_linkChecks at h
+  unfold C19_wf4
+  split at h
+  · next st hst =>
+    simp only [C12_stageChecks, Bool.and_eq_true] at h
+    simp only [hst]
+    exact h.2
+  · cases h
+
+/-- from S3 on, with the parameters of the program -/
+theorem C19_backhalf_size {p3 : Core.FsProg} {q4 q5 : AxCut.Prog} {hooks : Bool} {c : Nat}
+    {body : List X86.Code} {nargs : Nat}
+    (h4 : Core2AxCut.shrinkProg p3 = .ok q4) (h5 : AxCut.linearizeProg q4 = .ok q5)
+    (hwf : AxCut.wfNonLinearCheck q4 = true) (hc : X86.compileX86 q5 hooks c = .ok (body, nargs)) :
+    body.length ≤ 485 *
+      (1 + (2 * (Core2AxCut.SizeWidth.progWidth p3 +
+          shrinkFactor p3 * Core.SizeFocus.fsProgSize p3 * (Core2AxCut.SizeWidth.progWidth p3 + 1)) +
+        Core2AxCut.SizeWidth.progWidth p3 + 1)) * (2 * (shrinkFactor p3 * Core.SizeFocus.fsProgSize p3)) :=
+  Pipeline.SizeCompose.backhalf_x86 h4 h5 hwf hc
+
 /-! ## non-vacuity -/
 
 section examples
@@ -104,6 +240,34 @@ def C19_exLinSizes : Option (Nat × Nat × Nat × Nat × Nat × Nat) :=
 
 example : C19_exLinSizes = some (12, 25, 13, 16, 36, 4) := by decide
 
+/-- S5 of `C19Example.prog`: 16 nodes, longest context 4, substitutions fine; 70 mock instructions
+    (≤ 10·5·16), 322 x86-64 instructions (≤ 485·5·16) -/
+def C19_exCodeSizes : Option (Nat × Nat × Bool × Nat × Nat) :=
+  match Core2AxCut.shrinkProg C19Example.prog with
+  | .ok q =>
+    match AxCut.linearizeProg q with
+    | .ok q5 => some (AxCut.SizeLin.defsNodes q5.defs, AxCut.SizeLin.defsCap q5.defs,
+        Backend.SizeGen.substOkProg q5,
+        (match Backend.compileMockSym q5 true 0 with | .ok b => b.length | .error _ => 0),
+        (match X86.compileX86 q5 true 0 with | .ok (b, _) => b.length | .error _ => 0))
+    | .error _ => none
+  | .error _ => none
+
+example : C19_exCodeSizes = some (16, 4, true, 70, 322) := by decide +kernel
+
+/-- the hypotheses of `C19_backhalf_size` hold of `C19Example.prog`: |S3| = 14, factor 3, width 14, S4
+    passes the check; the bound is 485·(1 + 2·(14 + 42·15) + 15)·84 for 322 instructions -/
+example : (match Core2AxCut.shrinkProg C19Example.prog with
+    | .ok q4 => AxCut.wfNonLinearCheck q4
+    | .error _ => false) = true := by decide +kernel
+example : Core.SizeFocus.fsProgSize C19Example.prog = 14 ∧ shrinkFactor C19Example.prog = 3 ∧
+    Core2AxCut.SizeWidth.progWidth C19Example.prog = 14 := by decide
+
+/-- the source size of `C19_exProg` (no declarations): 21.  (`stages` runs `uniquify`, which is defined by
+    well-founded recursion and does not reduce in the kernel; evaluated with `#eval`: the stages have
+    43 / 55 / 18 / 23 nodes, the longest context of S5 is 4, `C19_wf4` holds, the routine has 129 lines.) -/
+example : Pipeline.SizeCompose.funSrcSize C19_exProg = 21 := by decide
+
 end examples
 
 #print axioms C19_uniquify_size
@@ -111,5 +275,14 @@ end examples
 #print axioms C19_focus_stmt
 #print axioms C19_linearize_size
 #print axioms C19_linearize_stmt
+#print axioms C19_codegen_generic
+#print axioms C19_parallel_moves
+#print axioms C19_codegen_x86
+#print axioms C19_routine_x86
+#print axioms C19_codegen_mock
+#print axioms C19_pipeline_stages
+#print axioms C19_pipeline_size
+#print axioms C19_backhalf_size
+#print axioms C19_wf4_of_linkChecks
 
 end Scc.Props
